@@ -16,6 +16,7 @@ func init() {
 			c17Selection(c)
 			c17UnsafeViews(c)
 			configReadOnlyRules(c, "C09")
+			negotiateExtensionsRules(c, "C09")
 		},
 	})
 }
